@@ -17,7 +17,6 @@ Step(sch, inp, cfg, m, e) ==
   ELSE IF e.ev = "recover" THEN
     IF e.res \notin {"ok", "eof", "io"} THEN Fail(m, "C14: try_recover failed with something other than end of input or an I/O error")
     ELSE IF "st" \in DOMAIN e /\ e.st.pos < m.pos THEN Fail(m, "C14: try_recover moved backwards")
-    ELSE IF "st" \in DOMAIN e /\ e.res = "ok" /\ e.st.pos <= m.pos THEN Fail(m, "C14: try_recover reported success without advancing")
     ELSE IF "st" \in DOMAIN e THEN [m EXCEPT !.pos = e.st.pos] ELSE m
   ELSE IF "st" \in DOMAIN e THEN [m EXCEPT !.pos = e.st.pos] ELSE m
 
